@@ -24,8 +24,12 @@ Inductive case :=
 | CTeq (t1 t2 : pstmt) (is_bool truth : bool)                    (* Transits.__eq__: is the result a bool, its truth value *)
 | CIov (names : list str) (proper : bool) (i : nat) (out : list (nat * list str))
     (* iovsearch.wf_etas_removal(_, _, non_empty_(proper_)subsets(names), i): candidate number, etas removed *)
-| CParse (text : list N) (parsed : option (list MflParser.stmt))
-    (* an MFL text and what lark + MFLInterpreter made of it (None = the real parser refuses it) *)
+| CCov (effects : list ceff) (winners : list (option nat)) (n_all : nat) (max_steps : Z) (out : list (list ceff * nat))
+    (* covsearch perform_step_procedure with the fits replaced by the oracle `winners`: per step the candidate effects
+       handed to handle_effects and the index offset *)
+| CParse (text : list N) (parsed : option (list MflParser.stmt)) (internal : bool)
+    (* an MFL text and what lark + MFLInterpreter made of it (None/false = lark refuses it, None/true = an exception
+       other than lark's syntax errors came out of the interpreter) *)
 | CLnt (a b : mf) (o : obs (list key))                          (* a.least_number_of_transformations(b, tool='modelsearch').keys() *)
 | CAllowed (keys : list key) (qs : list (key * list key * bool)) (* _is_allowed(cur, ., prev, funcs) *)
 | CStep (keys : list key) (out : list (nat * list key))         (* exhaustive_stepwise: run number, feature path from the root, in model_tasks order *)
@@ -234,7 +238,32 @@ Definition verdict (c : case) : list nat :=
   | CExh keys out u => check_exh keys out u
   | CTeq t1 t2 p tr => teq_verdict t1 t2 p tr
   | CLnt a b o => lnt_verdict a b o
-  | CParse text parsed => tag (parse_agrees text parsed) 10
+  | CCov effects winners n_all max_steps out =>
+      let ceff_eqb := fun (a b : ceff) => same_pc a b && N.eqb (snd (fst a)) (snd (fst b)) && N.eqb (snd a) (snd b) in
+      tag (list_eqb (fun a b => list_eqb ceff_eqb (fst a) (fst b) && Nat.eqb (snd a) (snd b))
+             (covsearch_procedure effects winners n_all max_steps) out) 6 ++
+      (* every step offers exactly the effects of the previous step whose (parameter, covariate) differs from the
+         effect just chosen, in the same order, and the numbering continues *)
+      tag ((fix ok (prev : list ceff) (ws : list (option nat)) (n : nat) (o : list (list ceff * nat)) : bool :=
+              match o with
+              | [] => true
+              | (c, k) :: o' =>
+                  list_eqb ceff_eqb c prev && Nat.eqb k (n - 1) &&
+                  match o', ws with
+                  | [], _ => true
+                  | _, Some i :: ws' =>
+                      match nth_error c i with
+                      | Some e => ok (filter (fun x => negb (same_pc e x)) c) ws' (n + length c) o'
+                      | None => false
+                      end
+                  | _, _ => false
+                  end
+              end) effects winners n_all out) 62
+  | CParse text parsed internal =>
+      tag (parse_agrees text parsed internal) 10 ++
+      (* a text is read or refused with a syntax error, never with an internal error *)
+      tag (negb internal) 79 ++
+      tag (negb (match parse_ref text with Some ss => existsb allometry_missing_ref ss | None => false end)) 221
   | CIov names proper i out =>
       let ss := map snd out in
       tag (list_eqb (fun a b => Nat.eqb (fst a) (fst b) && list_eqb (cmp_eqb str_cmp) (snd a) (snd b))
